@@ -56,13 +56,19 @@ Section Empty.
   Lemma run_overload_empty : forall b pa ka,
     run_overload truthy (Some r) T b pa ka = run_overload truthy None T b pa ka.
   Proof.
-    intros; unfold run_overload. destruct (mem b (supported T)); auto.
-    destruct (assoc b (fmap T)); auto. apply run_fn_empty.
+    intros; unfold run_overload. destruct (mem b (supported T)); [|reflexivity].
+    destruct (assoc b (fmap T)); [|reflexivity]. apply run_fn_empty.
   Qed.
 
   Lemma good_empty : forall b d args kws,
     good truthy None T b d args kws -> good truthy (Some r) T b d args kws.
-  Proof. intros b d args kws G bnd H. rewrite run_overload_empty. exact (G bnd H). Qed.
+  Proof.
+    intros b d args kws G bnd H. specialize (G bnd H).
+    destruct (truth_exc truthy d (bound bnd)) as [v|].
+    - rewrite (run_overload_empty b). exact G.
+    - destruct G as (pa & ka & bnd' & G1 & G2 & G3). exists pa, ka, bnd'.
+      rewrite (run_overload_empty b). auto.
+  Qed.
 End Empty.
 
 (* ---- the decision procedure agrees with the proposition (on tokens) ---- *)
@@ -80,14 +86,15 @@ Proof.
 Qed.
 Lemma norm_beq_refl : forall x, norm_beq x x = true.
 Proof.
-  intros [[l s] k]; simpl. rewrite !lbeq_refl; auto using val_beq_refl, kv_beq_refl.
+  intros [[l s] k]; simpl.
+  rewrite (lbeq_refl _ val_beq val_beq_refl), (lbeq_refl _ kv_beq kv_beq_refl), lbeq_refl; auto.
   intros [n v]; simpl. rewrite String.eqb_refl, nval_beq_refl; reflexivity.
 Qed.
 Lemma res_beq_refl : forall x, res_beq x x = true.
 Proof.
   destruct x; simpl; auto.
-  - rewrite String.eqb_refl, !lbeq_refl, Bool.eqb_reflx; auto using val_beq_refl, kv_beq_refl.
-  - rewrite String.eqb_refl, Nat.eqb_refl, !lbeq_refl; auto using val_beq_refl, kv_beq_refl.
+  - rewrite String.eqb_refl, (lbeq_refl _ val_beq val_beq_refl), (lbeq_refl _ kv_beq kv_beq_refl), Bool.eqb_reflx; auto.
+  - rewrite String.eqb_refl, Nat.eqb_refl, (lbeq_refl _ val_beq val_beq_refl), (lbeq_refl _ kv_beq kv_beq_refl); auto.
   - destruct e; reflexivity.
   - apply Nat.eqb_refl.
 Qed.
@@ -96,7 +103,7 @@ Lemma good_good_b : forall T b d args kws, good ttruth None T b d args kws -> go
 Proof.
   intros T b d args kws G. unfold good_b.
   destruct (bind_doc d (lift_args args) (lift_kws kws)) as [bnd|] eqn:E; [|reflexivity].
-  specialize (G bnd eq_refl).
+  specialize (G bnd E).
   destruct (truth_exc ttruth d (bound bnd)) as [v|].
   - rewrite G. apply res_beq_refl.
   - destruct G as (pa & ka & bnd' & -> & -> & ->).
@@ -138,7 +145,15 @@ Ltac shapes_of args :=
   destruct args as [|a0 [|a1 [|a2 [|a3 args]]]].
 Ltac solve_good :=
   match goal with
-  | |- good _ None _ _ _ ?args (canon _ ?kv) =>
-    unfold canon, good; cbn [flat_map app kw_names dsig params filter is_kw pkind_ pname map];
+  | |- good _ None _ _ _ ?args (canon ?names ?kv) =>
+    let n := eval vm_compute in names in change names with n;
+    unfold canon, good; cbn [flat_map app];
     shapes_of args; kvsplit; cbn [app]; finish
   end.
+(* forall b in the (generated, concrete) list: decide conformance, prove the conforming ones *)
+Ltac solve_all I D C :=
+  vm_compute in I;
+  repeat (destruct I as [<-|I];
+          [ vm_compute in D; injection D as <-; vm_compute in C;
+            first [ discriminate C | intros; solve_good ] | ]);
+  contradiction I.
